@@ -200,10 +200,17 @@ def traditional_clause(cl, rng, n, replay):
             if _razor(f, r):
                 continue
             hist.append(r)
-            h.update_peaks_bounded(search_range_in_hz=r)
+            if step % 2 == 0:
+                # the range handed over as a list that the caller keeps using: what the object searched (and reports) is the range as it was
+                r_list = list(r)
+                h.update_peaks_bounded(search_range_in_hz=r_list)
+                r_list[0], r_list[1] = 0.0123, 0.0456
+            else:
+                h.update_peaks_bounded(search_range_in_hz=r)
             cl.case((m, k, tuple(hist), j))
-            if h._search_range_in_hz != tuple(r) or h.meta.get("search_range_in_hz") != tuple(r):
-                cl.fail("hvsrpy.hvsr_traditional.HvsrTraditional.update_peaks_bounded", "stored search range", signature="traditional:range")
+            if tuple(h._search_range_in_hz) != tuple(r) or tuple(h.meta.get("search_range_in_hz")) != tuple(r):
+                cl.fail("hvsrpy.hvsr_traditional.HvsrTraditional.update_peaks_bounded", "stored search range (differs from the range given, or follows the caller's list)",
+                        signature="traditional:range")
                 return
             if not _check_traditional(cl, h, f, A, r, "hvsrpy.hvsr_traditional.HvsrTraditional.update_peaks_bounded", dict(history=list(hist))):
                 return
